@@ -605,7 +605,8 @@ def run(chk) -> None:
     cases = corpus + cases
     chk.rule = ("random MERGE statements of the modelled shape: 1-4 clauses (DELETE/UPDATE/INSERT) with conditions over target and/or source "
                 "columns, targets of 0-6 rows and sources of 0-5 rows over 3-4 keys + NULL (unique, duplicate-target and arbitrary key modes), "
-                "rendered plain/qualified/schema-qualified/quoted/subquery-source with random keyword case; plus 4 fixed variants (aliases, "
+                "rendered plain/qualified/schema-qualified/other-schema/quoted/subquery-source with random keyword and identifier case, ON written "
+                "key-first / source-column-first / with extra single-table terms / NULL-safe, optionally inside BEGIN…COMMIT|ROLLBACK; plus 4 fixed variants (aliases, "
                 "source expressions, helper visibility, atomicity).  non-trivial = distinct case with non-empty target and source inside the "
                 "deterministic-merge envelope")
     shards = common.chunks(cases, 16)
@@ -621,7 +622,8 @@ def run(chk) -> None:
     chk.trusted += ["modelled engine: DuckDB FULL OUTER JOIN / CASE / DELETE USING / UPDATE FROM / INSERT SELECT / COUNT_IF semantics "
                     "(Fs.Merge.cands, mutate, implCount) — exercised by this correspondence, not proved",
                     "MERGE semantics transcribed from the Snowflake documentation (Fs.Merge.spec)"]
-    chk.assumptions = ["statement shape: one nullable integer key, UPDATE SET v = s.y, INSERT (k,x,v) VALUES (s.k,0,s.y); non-key columns NOT NULL",
+    chk.assumptions = ["statement shapes: 1-2 nullable integer key columns, 2-3 target and 1-2 source non-key columns (int or VARCHAR from a fixed pool, NOT NULL), "
+                       "UPDATE SET of any column subset from bare source columns or constants, INSERT of all columns in any order with the source key",
                        "counts compared by numeric value (Decimal 2 = 2)"]
 
 
